@@ -160,7 +160,7 @@ def run_case(ctx, rng, index, casedir):
     viol = []
     outcomes = collections.Counter()
     w = VC.build(rng, casedir, index, ctx.tier, nrec=rng.choice([1, 2, 4, rng.randint(5, 30)]))
-    o = VC.run_index(w)
+    o = VC.run_index(w, None if rng.random() < 0.7 else os.path.join(casedir, "elsewhere.gvi"))
     if not o.ok:
         return {"sig": None, "nontrivial": False, "situations": {"index_failed": 1}, "violations": [],
                 "outcomes": {"index:" + o.kind: 1}}
@@ -204,8 +204,17 @@ def run_case(ctx, rng, index, casedir):
             argv += ["-r", r]
         if fmt:
             argv += ["-g", w.gfa, "-f", fmt]
-        argv += ["-o", out]
-        o = run_cli(argv)
+        if w.gvi != w.gaf + ".gvi":
+            argv += ["-i", w.gvi]
+        if k % 5 == 4:  # default output: stdout
+            o = run_cli(argv)
+            if o.ok:
+                with open(out, "w") as f:
+                    f.write(o.stdout)
+            sit["q:stdout_output"] += 1
+        else:
+            argv += ["-o", out]
+            o = run_cli(argv)
         outcomes[o.kind] += 1
         wit = {"regions": rstr, "classes": sorted(set(classes)), "stable": w.stable, "mode": w.mode,
                "must_nodes": sorted(must)[:12], "may_extra": extra, "outcome": o.to_json(),
